@@ -163,6 +163,22 @@ var EXOBJ = {ex: 1};
 var MKERR = function MKERR() {
   return new MyErr("n");
 };
+var R99 = {r99: 1};
+var MKSTEPITER = function (i, throws) {
+  var it = {};
+  it[Symbol.iterator] = function () {
+    return {
+      next: function () { return {value: 1, done: false}; },
+      return: function () {
+        LOG("r", i);
+        if (throws)
+          throw R99;
+        return {};
+      }
+    };
+  };
+  return it;
+};
 var MKITER = function (nx) { var it = {}; it[Symbol.iterator] = function () { return {next: function () { return {value: nx(), done: false}; }}; }; return it; };
 var MKPROXY = function (nx) { return new Proxy({}, {get: nx}); };
 var MKJOB = function (h) { return Promise.resolve().then(h); };
@@ -178,6 +194,12 @@ var preExSite = &Site{"preex.js", 2, 3}
 
 // an innermost native that raises an Error object gets it from the script function MKERR: the object's stack
 // names this creation site
+var r99Site = func() *Site {
+	off := strings.Index(preludeSrc, "throw R99")
+	l, c := posOf(preludeSrc, off)
+	return &Site{"prelude.js", l, c}
+}()
+
 var mkErrSite = func() *Site {
 	off := strings.Index(preludeSrc, `new MyErr("n")`)
 	l, c := posOf(preludeSrc, off)
